@@ -664,17 +664,16 @@ def onInstallSnap (s : Node) (q : InstallReq) : Node :=
   else
     let s := if q.term > s.term then (s.setTerm q.term).setRole .follower else s
     let s := (s.setRole .follower).setLeader q.src
+    -- stale or duplicate: everything the snapshot covers is already committed here
     if q.lastIndex ≤ s.commitIndex then s.ret rSuccess else
+    -- we already hold the snapshot's last entry (same index and term): nothing to install
+    if s.log.contains q.lastIndex && (s.entryTerm? q.lastIndex == some q.lastTerm) then s.ret rSuccess else
     let s := s.publishSnapshot { index := q.lastIndex, term := q.lastTerm, config := q.lastConfig, data := q.data }
-    let keep : Bool :=
-      s.log.contains q.lastIndex && (s.entryTerm? q.lastIndex == some q.lastTerm)
-    if keep then (s.compactLog q.lastIndex).ret rSuccess
-    else
-      let s := s.clearLog
-      let s := s.fsmRestore
-      let s := (s.withCommitIndex (s.snapIndex))
-      let s := s.changeConfigR q.lastConfig
-      s.commitConfig.ret rSuccess
+    let s := s.clearLog
+    let s := s.fsmRestore
+    let s := s.withCommitIndex s.snapIndex
+    let s := s.changeConfigR q.lastConfig
+    s.commitConfig.ret rSuccess
 
 /-- `Raft.onTimeoutNowRequest`. -/
 def onTimeoutNow (s : Node) : Node :=
